@@ -1,5 +1,6 @@
 (* C17 - "History is a faithful, bounded log; queries and Export/Import mean
-   what they say".  Property theorems over Model/History.v, stated with the
+   what they say".  Property theorems over Model/History.v (pkg/history as of
+   eab91e0 "history FindLatest applies its state conditions"), stated with the
    predicates of Spec/C17.v.  Nothing but statements closed by [exact]. *)
 From Coq Require Import List NArith ZArith Bool Arith.
 From AMV Require Import Base.ListSet Model.History Spec.C17.
@@ -105,6 +106,17 @@ Print Assumptions log_well_formed.
 
 (* ---------------------------------------------------------------- queries *)
 
+(* FindLatest never panics on a well-formed log (a state that is not tracked
+   would index MTimeTracked with -1: ValidateQuery rejects the query first).
+   Before eab91e0 a valid Inactive query panicked whenever the state's machine
+   index was >= the number of tracked states
+   (corpus/C17/find_latest_inactive_panics.json). *)
+Theorem find_latest_never_panics :
+  forall (c : hcfg) (db : list hrec) (limit : Z) (q : query),
+    log_wf c db -> find_latest c db limit q <> FlPanic.
+Proof. exact C17Proofs.find_latest_never_panics_lemma. Qed.
+Print Assumptions find_latest_never_panics.
+
 (* answers are newest first, inside the log, and respect the limit *)
 Theorem newest_first :
   forall (c : hcfg) (db : list hrec) (limit : Z) (q : query) (idxs : list nat),
@@ -114,8 +126,127 @@ Theorem newest_first :
 Proof. exact C17Proofs.newest_first_lemma. Qed.
 Print Assumptions newest_first.
 
-(* scalar and wall-clock ranges (and a machine-time range over at most one
-   state): FindLatest returns precisely the records satisfying the query *)
+(* THE STATE CONDITIONS ARE APPLIED.  For every configuration, store, limit and
+   query: an invalid query is an error; otherwise the answer is exactly the
+   positions - newest first, cut at the limit - of the stored records that
+   satisfy all four state conditions and the time conditions:
+     Active      every listed state active in the record;
+     Activated   active in the record and (no older record or inactive in the
+                 record stored just before it, db[i-1]);
+     Inactive    every listed state inactive in the record;
+     Deactivated inactive and (no older record or active in db[i-1]).
+   (Before eab91e0 no state condition ever rejected a record:
+   corpus/C17/find_latest_state_filters_noop.json.) *)
+Theorem find_latest_state_conditions :
+  forall (c : hcfg) (db : list hrec) (limit : Z) (q : query),
+    log_wf c db ->
+    find_latest c db limit q =
+      if negb (validate c q) then FlErr
+      else FlOk (select_latest (fun r older => state_sat c q r older && time_cond_impl c q r)
+                               db limit).
+Proof. exact C17Proofs.find_latest_state_conditions_lemma. Qed.
+Print Assumptions find_latest_state_conditions.
+
+(* the same, spelled out: every returned record satisfies all four state
+   conditions and the time conditions ... *)
+Theorem find_latest_sound :
+  forall (c : hcfg) (db : list hrec) (limit : Z) (q : query) (idxs : list nat) (i : nat),
+    log_wf c db -> find_latest c db limit q = FlOk idxs -> In i idxs ->
+    exists r, nth_error db i = Some r /\
+      forallb (st_active c r) (q_active q) = true /\
+      forallb (rel_activated c r (older_of db i)) (q_activated q) = true /\
+      forallb (st_inactive c r) (q_inactive q) = true /\
+      forallb (rel_deactivated c r (older_of db i)) (q_deactivated q) = true /\
+      time_cond_impl c q r = true.
+Proof. exact C17Proofs.find_latest_sound_lemma. Qed.
+Print Assumptions find_latest_sound.
+
+(* ... and every stored record that satisfies all conditions is returned,
+   unless the limit was used up by newer records *)
+Theorem find_latest_complete :
+  forall (c : hcfg) (db : list hrec) (limit : Z) (q : query) (idxs : list nat)
+         (i : nat) (r : hrec),
+    log_wf c db -> find_latest c db limit q = FlOk idxs ->
+    nth_error db i = Some r ->
+    state_sat c q r (older_of db i) = true -> time_cond_impl c q r = true ->
+    In i idxs \/
+    ((0 < limit)%Z /\ Z.of_nat (length idxs) = limit /\ forall j, In j idxs -> i < j).
+Proof. exact C17Proofs.find_latest_complete_lemma. Qed.
+Print Assumptions find_latest_complete.
+
+(* with scalar / wall-clock ranges and a machine-time range over at most one
+   state, the time conditions are the specified ranges too: FindLatest returns
+   precisely the records satisfying the query *)
+Theorem find_latest_full_spec :
+  forall (c : hcfg) (db : list hrec) (limit : Z) (q : query),
+    log_wf c db -> validate c q = true -> mtime_wf q = true ->
+    length (t_mstates (q_start q)) <= 1 ->
+    find_latest c db limit q = FlOk (find_latest_spec_rel c db limit q).
+Proof. exact C17Proofs.find_latest_full_spec_lemma. Qed.
+Print Assumptions find_latest_full_spec.
+
+(* FALSE of the model (and of the code): the same with Activated/Deactivated
+   read as the Query field comments put it ("activated / deactivated DURING
+   the transition", i.e. by the record's own MTimeTrackedDiff):
+     forall c db limit q, log_wf c db -> validate c q = true -> mtime_wf q = true ->
+       length (t_mstates (q_start q)) <= 1 ->
+       find_latest c db limit q = FlOk (find_latest_spec c db limit q).
+   (a) the oldest stored record has no predecessor: "inactive" is taken for
+   "deactivated" ("active" for "activated").  Add Sa; ...: the record of
+   Add Sa answers Deactivated:[Sc] although Sc was never active
+   (corpus/C17/deactivated_oldest_record.json; after a rotation the same for
+   Activated: corpus/C17/activated_after_rotation.json). *)
+Theorem find_latest_doc_refuted :
+  exists (c : hcfg) (txs : list htx) (q : query),
+    validate c q = true /\
+    find_latest c (run_log c txs) 0 q = FlOk [0] /\
+    find_latest_spec c (run_log c txs) 0 q = [].
+Proof. exact C17Proofs.find_latest_doc_refuted_lemma. Qed.
+Print Assumptions find_latest_doc_refuted.
+
+(* (b) the predecessor in the store need not be the previous transition:
+   Changed allow-list [Sb]; Add Sb (recorded), Add Sa (not recorded),
+   Remove Sb (recorded): the record of Remove Sb answers Activated:[Sa]
+   (corpus/C17/activated_unrecorded_between.json) *)
+Theorem find_latest_doc_refuted_unrecorded :
+  exists (c : hcfg) (txs : list htx) (q : query),
+    validate c q = true /\
+    find_latest c (run_log c txs) 0 q = FlOk [1] /\
+    find_latest_spec c (run_log c txs) 0 q = [].
+Proof. exact C17Proofs.find_latest_doc_refuted_unrecorded_lemma. Qed.
+Print Assumptions find_latest_doc_refuted_unrecorded.
+
+(* ... it holds on every store that is linked for the query's Activated /
+   Deactivated states (Spec.C17.linked_act / linked_deact: the previous stored
+   record shows the state as it was when the record's own transition began) *)
+Theorem find_latest_doc_partial :
+  forall (c : hcfg) (db : list hrec) (limit : Z) (q : query),
+    log_wf c db -> validate c q = true -> mtime_wf q = true ->
+    length (t_mstates (q_start q)) <= 1 ->
+    (forall i r, nth_error db i = Some r -> linked_for c q (older_of db i) r = true) ->
+    find_latest c db limit q = FlOk (find_latest_spec c db limit q).
+Proof. exact C17Proofs.find_latest_doc_partial_lemma. Qed.
+Print Assumptions find_latest_doc_partial.
+
+(* the hypothesis is met - for Active / Activated / Inactive conditions - by
+   the complete, unrotated history of states that start inactive: every
+   transition recorded (no Called/Changed list or rejected transition leaves
+   one out), each starting where the previous one ended, at most MaxRecords of
+   them.  (Deactivated stays excluded: the first record, theorem
+   find_latest_doc_refuted.) *)
+Theorem find_latest_doc_full_history :
+  forall (c : hcfg) (txs : list htx) (init : list N) (limit : Z) (q : query),
+    1 <= c_max c -> length txs <= c_max c ->
+    (forall tx, In tx txs -> matches c tx = true) ->
+    chained init txs ->
+    (forall s, In s (c_tracked c) -> N.odd (tick init s) = false) ->
+    validate c q = true -> mtime_wf q = true -> length (t_mstates (q_start q)) <= 1 ->
+    q_deactivated q = [] ->
+    find_latest c (run_log c txs) limit q = FlOk (find_latest_spec c (run_log c txs) limit q).
+Proof. exact C17Proofs.find_latest_doc_full_history_lemma. Qed.
+Print Assumptions find_latest_doc_full_history.
+
+(* in particular without state conditions *)
 Theorem find_latest_time_spec :
   forall (c : hcfg) (db : list hrec) (limit : Z) (q : query),
     log_wf c db -> validate c q = true ->
@@ -125,40 +256,8 @@ Theorem find_latest_time_spec :
 Proof. exact C17Proofs.find_latest_time_spec_lemma. Qed.
 Print Assumptions find_latest_time_spec.
 
-(* FALSE of the model (and of the code):
-     forall c db limit q, log_wf c db -> validate c q = true ->
-       find_latest c db limit q = FlOk (find_latest_spec c db limit q).
-   Witness: Add Sa; Add Sb; Add Sc; Remove Sa; Remove Sb, tracking Sa and Sc:
-   Active:[Sa] returns all five records, two of them with Sa inactive. *)
-Theorem find_latest_states_refuted :
-  exists (c : hcfg) (txs : list htx) (q : query),
-    validate c q = true /\
-    find_latest c (run_log c txs) 0 q = FlOk [4; 3; 2; 1; 0] /\
-    find_latest_spec c (run_log c txs) 0 q = [2; 1; 0].
-Proof. exact C17Proofs.find_latest_states_refuted_lemma. Qed.
-Print Assumptions find_latest_states_refuted.
-
-(* a valid Inactive query can panic (machine index on the tracked slice) *)
-Theorem find_latest_inactive_panics :
-  exists (c : hcfg) (txs : list htx) (q : query),
-    validate c q = true /\ find_latest c (run_log c txs) 0 q = FlPanic.
-Proof. exact C17Proofs.find_latest_inactive_panics_lemma. Qed.
-Print Assumptions find_latest_inactive_panics.
-
-(* what is true instead: the four state conditions are ignored altogether,
-   except that Inactive panics when a state's machine index does not fit *)
-Theorem find_latest_states_partial :
-  forall (c : hcfg) (db : list hrec) (limit : Z) (q : query),
-    log_wf c db ->
-    find_latest c db limit q =
-      if negb (validate c q) then FlErr
-      else if negb (forallb (fun s => s <? length (c_tracked c)) (q_inactive q))
-              && negb (is_nil db) then FlPanic
-      else find_latest c db limit (strip_states q).
-Proof. exact C17Proofs.find_latest_states_partial_lemma. Qed.
-Print Assumptions find_latest_states_partial.
-
-(* the machine-time range over several states is not a per-state range *)
+(* FALSE (2:206): the hypothesis on the machine-time range cannot be dropped -
+   over several states it is not a per-state range *)
 Theorem find_latest_mtime_refuted :
   exists (c : hcfg) (txs : list htx) (q : query),
     validate c q = true /\ states_free q = true /\ mtime_wf q = true /\
@@ -167,24 +266,72 @@ Theorem find_latest_mtime_refuted :
 Proof. exact C17Proofs.find_latest_mtime_refuted_lemma. Qed.
 Print Assumptions find_latest_mtime_refuted.
 
-(* FALSE: forall ..., between c db kind s hs he = Some (between_spec c db kind s hs he) *)
-Theorem between_refuted :
-  exists (c : hcfg) (txs : list htx) (s : nat) (hs he : N),
-    between c (run_log c txs) 0 s hs he = Some true /\
-    between_spec c (run_log c txs) 0 s hs he = false.
-Proof. exact C17Proofs.between_refuted_lemma. Qed.
-Print Assumptions between_refuted.
+(* ---------------------------------------------------------------- *Between *)
 
-(* what the helpers do answer: "is there any record in the window" *)
-Theorem between_partial :
+(* the helpers answer exactly "the state is tracked and some stored record
+   with HTime within [hs,he] satisfies the state condition" - never a panic.
+   (Before eab91e0: true as soon as ANY record lay in the window, and a panic
+   for InactiveBetween: corpus/C17/between_ignores_state.json.) *)
+Theorem activated_between_spec :
+  forall (c : hcfg) (db : list hrec) (s : nat) (hs he : N),
+    log_wf c db ->
+    between c db 0 s hs he =
+      Some (is_tracked c s &&
+            exists_with_older (fun r older => rel_activated c r older s
+                                              && in_range hs he (r_htime r)) None db).
+Proof. exact C17Proofs.activated_between_lemma. Qed.
+Print Assumptions activated_between_spec.
+
+Theorem active_between_spec :
+  forall (c : hcfg) (db : list hrec) (s : nat) (hs he : N),
+    log_wf c db ->
+    between c db 1 s hs he =
+      Some (is_tracked c s &&
+            existsb (fun r => st_active c r s && in_range hs he (r_htime r)) db).
+Proof. exact C17Proofs.active_between_lemma. Qed.
+Print Assumptions active_between_spec.
+
+Theorem deactivated_between_spec :
+  forall (c : hcfg) (db : list hrec) (s : nat) (hs he : N),
+    log_wf c db ->
+    between c db 2 s hs he =
+      Some (is_tracked c s &&
+            exists_with_older (fun r older => rel_deactivated c r older s
+                                              && in_range hs he (r_htime r)) None db).
+Proof. exact C17Proofs.deactivated_between_lemma. Qed.
+Print Assumptions deactivated_between_spec.
+
+Theorem inactive_between_spec :
+  forall (c : hcfg) (db : list hrec) (s : nat) (hs he : N),
+    log_wf c db ->
+    between c db 3 s hs he =
+      Some (is_tracked c s &&
+            existsb (fun r => st_inactive c r s && in_range hs he (r_htime r)) db).
+Proof. exact C17Proofs.inactive_between_lemma. Qed.
+Print Assumptions inactive_between_spec.
+
+(* FALSE: forall ..., between c db kind s hs he = Some (between_spec c db kind s hs he)
+   with "activated / deactivated during the transition" (as for FindLatest):
+   DeactivatedBetween Sc over the instant of the first record is true although
+   Sc was never active *)
+Theorem between_doc_refuted :
+  exists (c : hcfg) (txs : list htx) (s : nat) (hs he : N),
+    between c (run_log c txs) 2 s hs he = Some true /\
+    between_spec c (run_log c txs) 2 s hs he = false.
+Proof. exact C17Proofs.between_doc_refuted_lemma. Qed.
+Print Assumptions between_doc_refuted.
+
+(* ... it holds for ActiveBetween / InactiveBetween outright and for the other
+   two on every store linked for the state *)
+Theorem between_doc_partial :
   forall (c : hcfg) (db : list hrec) (kind : N) (s : nat) (hs he : N),
     log_wf c db -> (kind < 4)%N ->
-    between c db kind s hs he =
-      if negb (is_tracked c s) then Some false
-      else if (kind =? 3)%N && negb (s <? length (c_tracked c)) && negb (is_nil db) then None
-      else Some (existsb (fun r => in_range hs he (r_htime r)) db).
-Proof. exact C17Proofs.between_partial_lemma. Qed.
-Print Assumptions between_partial.
+    (kind = 1%N \/ kind = 3%N \/
+     forall i r, nth_error db i = Some r ->
+       (if (kind =? 0)%N then linked_act else linked_deact) c (older_of db i) r s = true) ->
+    between c db kind s hs he = Some (between_spec c db kind s hs he).
+Proof. exact C17Proofs.between_doc_partial_lemma. Qed.
+Print Assumptions between_doc_partial.
 
 (* ---------------------------------------------------------------- Export / Import *)
 
@@ -250,3 +397,60 @@ Example export_import_nonvacuous :
     IOk {| e_clock := [3; 2; 1]%N; e_active := [0; 2]; e_names := [0; 1; 2];
            e_mtick := 5; e_qtick := 0; e_has_restored := false |}.
 Proof. vm_compute. reflexivity. Qed.
+
+(* the state conditions select proper, non-empty subsets of the five records of
+   Add Sa; Add Sb; Add Sc; Remove Sa; Remove Sb (tracking Sa, Sc) *)
+Example state_conditions_nonvacuous :
+  let c := C17Proofs.w_cfg [0; 2] in
+  let db := run_log c C17Proofs.w_txs in
+  let c2 := C17Proofs.w_cfg [2] in
+  find_latest c db 0 (C17Proofs.w_query [0] [] [] []) = FlOk [2; 1; 0] /\
+  find_latest c db 0 (C17Proofs.w_query [] [2] [] []) = FlOk [2] /\
+  find_latest c db 0 (C17Proofs.w_query [] [] [0] []) = FlOk [4; 3] /\
+  find_latest c db 0 (C17Proofs.w_query [] [] [] [0]) = FlOk [3] /\
+  find_latest c db 0 (C17Proofs.w_query [2] [] [0] []) = FlOk [4; 3] /\
+  find_latest c db 1 (C17Proofs.w_query [0] [] [] []) = FlOk [2] /\
+  (* Inactive on a state whose machine index (2) is >= the number of tracked states (1) *)
+  find_latest c2 (run_log c2 C17Proofs.w_txs) 0 (C17Proofs.w_query [] [] [2] []) = FlOk [1; 0] /\
+  (* an untracked state is an error *)
+  find_latest c2 (run_log c2 C17Proofs.w_txs) 0 (C17Proofs.w_query [] [] [0] []) = FlErr.
+Proof. vm_compute. repeat split; reflexivity. Qed.
+
+(* the helpers answer true and false on windows that contain records *)
+Example between_nonvacuous :
+  let c := C17Proofs.w_cfg [0; 2] in
+  let db := run_log c C17Proofs.w_txs in
+  let c2 := C17Proofs.w_cfg [2] in
+  between c db 0 2 3 3 = Some true /\ between c db 0 2 1 2 = Some false /\
+  between c db 0 2 4 5 = Some false /\
+  between c db 1 2 3 5 = Some true /\ between c db 1 2 1 2 = Some false /\
+  between c db 2 0 4 4 = Some true /\ between c db 2 0 5 5 = Some false /\
+  between c db 2 0 1 3 = Some false /\
+  between c db 3 0 4 5 = Some true /\ between c db 3 0 1 3 = Some false /\
+  between c2 (run_log c2 C17Proofs.w_txs) 3 2 1 2 = Some true /\
+  between c db 1 1 1 5 = Some false (* Sb is not tracked *).
+Proof. vm_compute. repeat split; reflexivity. Qed.
+
+(* a store that is linked for a query with Activated and Deactivated states *)
+Example doc_partial_nonvacuous :
+  let c := C17Proofs.w_cfg [0; 2] in
+  let db := run_log c C17Proofs.w_txs in
+  let q := C17Proofs.w_query [] [2] [] [0] in
+  let q2 := C17Proofs.w_query [] [0; 2] [] [] in
+  forallb (fun i => match nth_error db i with
+                    | Some r => linked_for c q (older_of db i) r && linked_for c q2 (older_of db i) r
+                    | None => false end) (seq 0 (length db)) = true /\
+  find_latest c db 0 (C17Proofs.w_query [] [] [] [0]) = FlOk [3] /\
+  find_latest_spec c db 0 (C17Proofs.w_query [] [] [] [0]) = [3] /\
+  find_latest c db 0 (C17Proofs.w_query [] [0] [] []) = FlOk [0] /\
+  find_latest_spec c db 0 (C17Proofs.w_query [] [0] [] []) = [0].
+Proof. vm_compute. repeat split; reflexivity. Qed.
+
+(* the five-transition history is complete, chained and starts inactive *)
+Example full_history_nonvacuous :
+  let c := C17Proofs.w_cfg [0; 2] in
+  chained [0; 0; 0; 0]%N C17Proofs.w_txs /\
+  forallb (matches c) C17Proofs.w_txs = true /\
+  length C17Proofs.w_txs <= c_max c /\
+  find_latest c (run_log c C17Proofs.w_txs) 0 (C17Proofs.w_query [0] [2] [] []) = FlOk [2].
+Proof. cbn [chained C17Proofs.w_txs]. repeat split; vm_compute; try reflexivity; repeat constructor. Qed.
